@@ -364,6 +364,149 @@ theorem dangling_parameter_entry_is_load_failure (ctx : NsCtx) (ens : Option Str
       (fun lookup => dangling_parameter_entry_fails ens root params FUEL lookup x el entry pn hel hentry htag href
         (hdang types params ht hp)))
 
+/-! ### duplicates, end to end -/
+
+/-- The `name` attribute of an element (what both name tables are keyed on). -/
+def nameOf (el : XmlNode) : String := (el.attr? "name").getD ""
+
+theorem loadParameter_name (ens : Option String) (types : List (String × LPType)) (el : XmlNode) (p : LParam)
+    (h : loadParameter ens types el = .ok p) : p.name = nameOf el := by
+  unfold loadParameter at h
+  cases h1 : el.attr? "name" with
+  | none => simp [XmlNode.attr!, h1, bind, Except.bind] at h
+  | some n =>
+    cases h2 : el.attr? "parameterTypeRef" with
+    | none => simp [XmlNode.attr!, h1, h2, bind, Except.bind] at h
+    | some tn =>
+      simp only [XmlNode.attr!, h1, h2, bind, Except.bind, pure, Except.pure] at h
+      by_cases hh : types.any (·.1 == tn) = true
+      · simp only [hh, Bool.not_true, Bool.false_eq_true, if_false] at h
+        injection h with h; subst h; simp [nameOf, h1]
+      · simp [hh, throw, throwThe, MonadExceptOf.throw] at h
+
+theorem paramSet_keys (ens : Option String) (types : List (String × LPType)) (l : List XmlNode) :
+    ∀ (acc res : List (String × LParam)), l.foldlM (paramSetStep ens types) acc = .ok res →
+      res.map (·.1) = acc.map (·.1) ++ l.map nameOf := by
+  induction l with
+  | nil => intro acc res h; simp [List.foldlM, pure, Except.pure] at h; subst h; simp
+  | cons el l ih =>
+    intro acc res h
+    simp only [List.foldlM_cons, bind, Except.bind] at h
+    cases hs : paramSetStep ens types acc el with
+    | error e => simp [hs] at h
+    | ok acc' =>
+      simp only [hs] at h
+      rw [ih acc' res h]
+      unfold paramSetStep at hs
+      cases hp : loadParameter ens types el with
+      | error e => simp [hp] at hs
+      | ok p =>
+        simp only [hp] at hs
+        by_cases hd : acc.any (·.1 == p.name) = true
+        · simp [hd] at hs
+        · simp only [hd, Bool.false_eq_true, if_false] at hs
+          injection hs with hs; subst hs
+          simp [loadParameter_name ens types el p hp]
+
+theorem loadParameterType_name (ens : Option String) (x : XmlNode) (t : LPType)
+    (h : loadParameterType ens x = .ok t) : t.name = nameOf x := by
+  unfold loadParameterType at h
+  cases h1 : x.attr? "name" with
+  | none =>
+    exfalso
+    simp only [XmlNode.attr!, h1, bind, Except.bind, pure, Except.pure] at h
+    split at h
+    · simp [throw, throwThe, MonadExceptOf.throw] at h
+    · split at h
+      · simp at h
+      · split at h
+        · simp at h
+        · simp [throw, throwThe, MonadExceptOf.throw] at h
+  | some n =>
+    simp only [nameOf, h1, Option.getD_some]
+    simp only [XmlNode.attr!, h1, bind, Except.bind, pure, Except.pure] at h
+    repeat' (first | (cases h; done) | (cases h; rfl) | split at h)
+
+/-- **Two parameters with one name: the document is rejected** (whether or not any container uses them). -/
+theorem duplicate_parameter_names_rejected (ens : Option String) (root set : XmlNode) (types : List (String × LPType))
+    (hset : findFirst ens [step "TelemetryMetaData", step "ParameterSet"] root = some set)
+    (hdup : ¬ (set.elems.map nameOf).Nodup) : ∃ e, loadParameterSet ens root types = .error e := by
+  cases h : loadParameterSet ens root types with
+  | error e => exact ⟨e, rfl⟩
+  | ok ps =>
+    exfalso
+    have hu := params_unique ens root types ps h
+    unfold loadParameterSet at h
+    simp only [hset] at h
+    have hk := paramSet_keys ens types set.elems [] ps h
+    unfold UniqueKeys at hu
+    rw [hk] at hu
+    simp only [List.map_nil, List.nil_append] at hu
+    exact hdup hu
+
+theorem typeSet_keys (ens : Option String) (l : List XmlNode) :
+    ∀ (acc res : List (String × LPType)), l.foldlM (typeSetStep ens) acc = .ok res →
+      res.map (·.1) = acc.map (·.1) ++ l.map nameOf := by
+  induction l with
+  | nil => intro acc res h; simp [List.foldlM, pure, Except.pure] at h; subst h; simp
+  | cons el l ih =>
+    intro acc res h
+    simp only [List.foldlM_cons, bind, Except.bind] at h
+    cases hs : typeSetStep ens acc el with
+    | error e => simp [hs] at h
+    | ok acc' =>
+      simp only [hs] at h
+      rw [ih acc' res h]
+      unfold typeSetStep at hs
+      cases hp : loadParameterType ens el with
+      | error e => simp [hp] at hs
+      | ok t =>
+        simp only [hp] at hs
+        by_cases hd : acc.any (·.1 == t.name) = true
+        · simp [hd] at hs
+        · simp only [hd, Bool.false_eq_true, if_false] at hs
+          injection hs with hs; subst hs
+          simp [loadParameterType_name ens el t hp]
+
+/-- **Two parameter types with one name: the document is rejected.** -/
+theorem duplicate_type_names_rejected (ens : Option String) (root set : XmlNode)
+    (hset : findFirst ens [step "TelemetryMetaData", step "ParameterTypeSet"] root = some set)
+    (hdup : ¬ (set.elems.map nameOf).Nodup) : ∃ e, loadParameterTypeSet ens root = .error e := by
+  cases h : loadParameterTypeSet ens root with
+  | error e => exact ⟨e, rfl⟩
+  | ok ts =>
+    exfalso
+    have hu := types_unique ens root ts h
+    unfold loadParameterTypeSet at h
+    simp only [hset] at h
+    have hk := typeSet_keys ens set.elems [] ts h
+    unfold UniqueKeys at hu
+    rw [hk] at hu
+    simp only [List.map_nil, List.nil_append] at hu
+    exact hdup hu
+
+/-- Both as statements about `from_xtce`. -/
+theorem duplicate_names_are_load_failures (ctx : NsCtx) (ens : Option String) (rootName : String) (root : XmlNode)
+    (he : ctx.expected = .ok ens)
+    (hdup : (∃ set, findFirst ens [step "TelemetryMetaData", step "ParameterTypeSet"] root = some set ∧
+              ¬ (set.elems.map nameOf).Nodup) ∨
+            (∃ set, findFirst ens [step "TelemetryMetaData", step "ParameterSet"] root = some set ∧
+              ¬ (set.elems.map nameOf).Nodup)) :
+    ∃ e, loadXtce ctx rootName root = .error e := by
+  have hd : ∃ e, loadDoc ens root = .error e := by
+    unfold loadDoc
+    rcases hdup with ⟨set, hs, hn⟩ | ⟨set, hs, hn⟩
+    · obtain ⟨e, h⟩ := duplicate_type_names_rejected ens root set hs hn
+      exact ⟨e, by simp only [h]⟩
+    · cases ht : loadParameterTypeSet ens root with
+      | error e => exact ⟨e, rfl⟩
+      | ok types =>
+        simp only
+        obtain ⟨e, h⟩ := duplicate_parameter_names_rejected ens root set types hs hn
+        exact ⟨e, by simp only [h]⟩
+  obtain ⟨e, hd⟩ := hd
+  exact ⟨e, loadDoc_error_is_load_error ctx ens rootName root he e hd⟩
+
 /-- Non-vacuity: a concrete document meeting every premise of `dangling_base_is_load_failure`. -/
 def danglingDoc : XmlNode :=
   .elem none "SpaceSystem" [] none [
